@@ -126,6 +126,11 @@ def scenarios(tier: str) -> List[Dict[str, Any]]:
             for level in lv:
                 out.append({"A": 3, "P": 1, "N": None, "stream": "finite", "stop": False, "level": level,
                             "deps": g, "msgs": msgs})
+            if single and n == 2 and "overrides" not in g:
+                # suspension points *before* run_task: an async pre_execute hook and an async when_received ack
+                amsgs = [dict(m, ack="async", gates=["ack"]) for m in msgs]
+                out.append({"A": 3, "P": 1, "N": None, "stream": "finite", "stop": False, "level": 0, "deps": g, "msgs": amsgs,
+                            "ack_type": "when_received", "mws": [{"hooks": {"pre_execute": "gated", "post_execute": "gated"}}]})
     return out
 
 
